@@ -201,7 +201,13 @@ func Gen(t *rapid.T, cfg Config) World {
 			last.Extra = append(append(fsx.Tree{}, src.Extra...), fsx.Node{Path: ".git/HEAD", Kind: "file", Content: "ref: b (other checkout)", Mode: 0644, Sec: 1500000000},
 				fsx.Node{Path: ".terraform/plugins/x", Kind: "file", Content: "plugin", Mode: 0755, Sec: 1500000000})
 		}
-		if cfg.EmptyDirClones && rapid.IntRange(0, 2).Draw(t, "emptydirclone?") == 0 {
+		if rapid.IntRange(0, 5).Draw(t, "linkclone?") == 0 {
+			// ... or a copy in which an in-package link leads to another file: the same regular files, different content behind one name
+			two := fsx.Tree{{Path: "cfg-a.deps", Kind: "file", Content: "deps of a", Mode: 0644, Sec: 1500000000}, {Path: "cfg-b.deps", Kind: "file", Content: "deps of b", Mode: 0644, Sec: 1500000000}}
+			src0 := &w.Remotes[0]
+			src0.Extra = append(append(append(fsx.Tree{}, src.Extra...), two...), fsx.Node{Path: "current.deps", Kind: "symlink", Target: "cfg-a.deps"})
+			last.Extra = append(append(append(fsx.Tree{}, src.Extra...), two...), fsx.Node{Path: "current.deps", Kind: "symlink", Target: "cfg-b.deps"})
+		} else if cfg.EmptyDirClones && rapid.IntRange(0, 2).Draw(t, "emptydirclone?") == 0 {
 			// ... or a copy that differs in an empty directory only, which the caller asks for
 			last.Extra = append(append(fsx.Tree{}, src.Extra...), fsx.Node{Path: "only-empty", Kind: "dir", Mode: 0755, Sec: 1500000000})
 			emptyDirCall = &AddCall{Kind: "remote", Addr: withSub(last.Addr, "only-empty")}
